@@ -1111,6 +1111,20 @@ def propagate_toplevel(formula: FNode, env: Optional["pysmt.environment.Environm
                 relevant.add(r)
                 disjoint_set.add(l, r)
 
+    # variables bound by a quantifier of the formula: used as a
+    # replacement they would be captured by their binder
+    bound = set()
+    seen = set()
+    to_visit = [formula]
+    while to_visit:
+        f = to_visit.pop()
+        if f in seen:
+            continue
+        seen.add(f)
+        if f.is_quantifier():
+            bound.update(f.quantifier_vars())
+        to_visit.extend(f.args())
+
     # check and build the mapping
     sigma = {}
     for k in relevant:
@@ -1120,7 +1134,7 @@ def propagate_toplevel(formula: FNode, env: Optional["pysmt.environment.Environm
             if k.is_constant() and v.is_constant() and\
                k.constant_value() != v.constant_value():
                 return mgr.FALSE()
-            else:
+            elif v not in bound:
                 sigma[k] = v
 
     res = formula.substitute(sigma)
